@@ -200,6 +200,10 @@ CoreSMTSolver::handleSat()
             vardata[var(l)].reason = unit;
             deducedReason = unit;
         }
+        // a level-0 deduction is never explained outside proof mode: record what it rests on
+        OPENSMT_VERIF(if (decisionLevel() == 0 and not logsResolutionProof()) {
+            verif::trailClause("ded0", theory_handler, trail, l, true);
+        });
         uncheckedEnqueue(l, deducedReason);
     }
     if (deds.size() > 0) {
@@ -223,6 +227,7 @@ CoreSMTSolver::handleUnsat()
     if (!logsResolutionProof()) {
         // Top-level conflict, problem is T-Unsatisfiable
         if (decisionLevel() == 0) {
+            OPENSMT_VERIF(verif::trailClause("conf0", theory_handler, trail, lit_Undef, false));
             return TPropRes::Unsat;
         }
     }
